@@ -341,19 +341,6 @@ theorem applyMuts_val_ok (ms : List Mutation) (hok : ∀ m ∈ ms, m.ok = true) 
     (h : Layer.get (applyMuts [] ms) k = some (some v)) : v ≠ [] :=
   applyMuts_val_ok' ms hok [] (by intro k v h; simp [layerGet_nil] at h) k v h
 
-/-- an unfinished table only shows keys of the store it is written from -/
-theorem restrict_get (r junk : Layer) (k : Key) (h : Layer.get (restrictTo r junk) k ≠ none) : Layer.get r k ≠ none := by
-  cases hg : Layer.get (restrictTo r junk) k with
-  | none => exact absurd hg h
-  | some x =>
-    have hm := layerGet_some_mem _ _ _ hg
-    obtain ⟨p, hp, hpk⟩ := List.mem_map.1 hm
-    have := (List.mem_filter.1 hp).2
-    rw [hpk] at this
-    intro hn
-    rw [hn] at this
-    cases this
-
 theorem walMuts_nil : walMuts [] = [] := rfl
 theorem walMuts_cons (f : WalFile) (fs : List WalFile) : walMuts (f :: fs) = fileMuts f ++ walMuts fs := by
   simp [walMuts]
